@@ -992,7 +992,8 @@ class DateTime(datetime.datetime, Date):
             days += 1
             dt = start.add(days=days)
 
-        return dt
+        # The starting day may begin later than 00:00 (skipped midnight)
+        return dt if keep_time else dt.start_of("day")
 
     def previous(
         self, day_of_week: WeekDay | None = None, keep_time: bool = False
@@ -1021,7 +1022,8 @@ class DateTime(datetime.datetime, Date):
             days += 1
             dt = start.subtract(days=days)
 
-        return dt
+        # The starting day may begin later than 00:00 (skipped midnight)
+        return dt if keep_time else dt.start_of("day")
 
     def first_of(self, unit: str, day_of_week: WeekDay | None = None) -> Self:
         """
@@ -1085,7 +1087,7 @@ class DateTime(datetime.datetime, Date):
         dt = self.start_of("day")
 
         if day_of_week is None:
-            return dt.set(day=1)
+            return dt.set(day=1).start_of("day")
 
         month = calendar.Calendar().monthdayscalendar(dt.year, dt.month)
 
@@ -1096,7 +1098,7 @@ class DateTime(datetime.datetime, Date):
         else:
             day_of_month = month[1][calendar_day]
 
-        return dt.set(day=day_of_month)
+        return dt.set(day=day_of_month).start_of("day")
 
     def _last_of_month(self, day_of_week: WeekDay | None = None) -> Self:
         """
@@ -1108,7 +1110,7 @@ class DateTime(datetime.datetime, Date):
         dt = self.start_of("day")
 
         if day_of_week is None:
-            return dt.set(day=self.days_in_month)
+            return dt.set(day=self.days_in_month).start_of("day")
 
         month = calendar.Calendar().monthdayscalendar(dt.year, dt.month)
 
@@ -1119,7 +1121,7 @@ class DateTime(datetime.datetime, Date):
         else:
             day_of_month = month[-2][calendar_day]
 
-        return dt.set(day=day_of_month)
+        return dt.set(day=day_of_month).start_of("day")
 
     def _nth_of_month(
         self, nth: int, day_of_week: WeekDay | None = None
@@ -1140,7 +1142,7 @@ class DateTime(datetime.datetime, Date):
             dt = dt.next(day_of_week)
 
         if dt.format("%Y-%M") == check:
-            return self.start_of("day").set(day=dt.day)
+            return dt
 
         return None
 
@@ -1193,7 +1195,7 @@ class DateTime(datetime.datetime, Date):
         if last_month < dt.month or year != dt.year:
             return None
 
-        return self.start_of("day").on(self.year, dt.month, dt.day)
+        return dt
 
     def _first_of_year(self, day_of_week: WeekDay | None = None) -> Self:
         """
@@ -1236,7 +1238,7 @@ class DateTime(datetime.datetime, Date):
         if year != dt.year:
             return None
 
-        return self.start_of("day").on(self.year, dt.month, dt.day)
+        return dt
 
     def average(  # type: ignore[override]
         self, dt: datetime.datetime | None = None
